@@ -45,7 +45,10 @@ prop('C02', title='Signatures and parameter digests cover the specified bytes; t
                 'name encoder hands the signer every component except the digest component and the 32 digest value bytes as digest '
                 'buffer; params_sha256_checker / sha256_digest_checker hash EVERY covered block, in order, once, and accept iff the digest '
                 'equals the value buffer (SHA-256 uninterpreted); on the parse side InterestNameField.parse_from hands validators every '
-                'name component except ParametersSha256Digest ones, in order, and the value bytes of that component as digest buffer. '
+                'name component except ParametersSha256Digest ones, in order, and the value bytes of that component as digest buffer; '
+                'verify_ecdsa / rsa / hmac / ed25519 hand the (assumed) cryptographic verifier the hash over every covered block in '
+                'order, the packet\'s signature value and exactly the given key and return its verdict; the per-algorithm checkers refuse '
+                'other signature types; from_key\'s validator insists on a key locator under the configured key name. '
                 'The other parse-side ranges, acceptance by the matching verifier and tamper rejection are a bounded stand-in with '
                 'real crypto.',
      level_note='Unforgeability of RSA/ECDSA/HMAC/Ed25519 and SHA-256 are assumed (Cryptodome/hashlib); "no differing packet is accepted" '
